@@ -10,10 +10,12 @@ LEVEL = "exploration"
 RULE = ("cases = seeded APIs spanning the operation_info type-resolution matrix ({relative, fully-qualified} x {same file, other "
         "target file imported, other target file not imported (incl. files named operation/operation_async/pagers), Empty}) plus "
         "requests with an empty response/metadata type that must be rejected; each LRO method is called through sync and asyncio "
-        "clients against scripted GetOperation histories not-done^k (k=0..3) then done(response|error); the judge checks the future "
+        "clients against scripted GetOperation histories not-done^k (k=0..3) then done(response|error), and — in cases whose service YAML "
+        "places google.longrunning.Operations under a per-case URL prefix, listed as a mixin or not — through the REST client against a "
+        "loopback HTTP server whose polls must follow the YAML rule; the judge checks the future "
         "type, where and on which channel polls arrive, the GetOperation request, and type + content of result()/metadata; "
         "distinct = distinct (response location, metadata location, qualification, history, client kind) that held")
-ASSUMPTIONS = ["polling sleeps go through a virtual clock patched into google.api_core.retry", "REST long-running operations are not exercised",
+ASSUMPTIONS = ["polling sleeps go through a virtual clock patched into google.api_core.retry", "REST long-running operations are exercised for the synchronous REST transport only",
                "types in proto sub-packages are not generated"]
 CASE_TIMEOUT = 400
 PARALLEL = 12
@@ -23,12 +25,13 @@ CODES = {3: "INVALID_ARGUMENT", 5: "NOT_FOUND", 7: "PERMISSION_DENIED", 9: "FAIL
 def floors(tier):
     k = 1 if tier == "quick" else 8
     return {"lro_histories": 300 * k, "polls_observed": 300 * k, "results_typed": 150 * k, "errors_mapped": 60 * k, "rejections_checked": (4 if tier == "quick" else 20),
-            "raw_operation_calls": 16 * k, "resp:far": 30 * k, "meta:far": 30 * k, "resp:empty": 20 * k, "client:aio": 120 * k}
+            "raw_operation_calls": 16 * k, "resp:far": 30 * k, "meta:far": 30 * k, "resp:empty": 20 * k, "client:aio": 120 * k, "rest_lro_histories": 40 * k}
 
 
 def plan(seed, tier):
     n = 10 if tier == "quick" else 90
     cases = [{"id": f"lro-{seed}-{i}", "seed": seed * 100003 + i, "broken": None} for i in range(n)]
+    cases += [{"id": f"lro-rest-{seed}-{i}", "seed": seed * 100003 + 3000 + i, "broken": None, "rest": ["unlisted", "listed"][i % 2]} for i in range(max(4, n // 3))]
     for i, b in enumerate(["no_response", "no_metadata", "both_empty"] * (2 if tier == "quick" else 8)):
         cases.append({"id": f"lro-bad-{seed}-{i}", "seed": seed * 100003 + 7000 + i, "broken": b})
     return cases
@@ -36,7 +39,7 @@ def plan(seed, tier):
 
 def build_api(case):
     rng = random.Random(case["seed"])
-    return apigen.lro_api(rng, "j%d" % (case["seed"] % 100000), broken=case["broken"])
+    return apigen.lro_api(rng, "j%d" % (case["seed"] % 100000), broken=case["broken"], rest=case.get("rest") or False)
 
 
 def resolve(pkg, name):
@@ -44,6 +47,21 @@ def resolve(pkg, name):
     if name.startswith(("google.protobuf.", "google.rpc.", "google.type.")):
         return name
     return name if name.startswith(pkg + ".") else pkg + "." + name
+
+
+def op_json(op, mtype, rtype, model):
+    """JSON of an Operation whose Any payloads hold dynamic messages (the default pool of this process does not know them)."""
+    import json
+    from google.protobuf import json_format
+    d = {"name": op.name, "done": bool(op.done)}
+    for fld, t in (("metadata", mtype), ("response", rtype)):
+        a = getattr(op, fld)
+        if a.type_url:
+            m = model.parse(t, a.value)
+            d[fld] = {"@type": a.type_url, **json_format.MessageToDict(m, preserving_proto_field_name=False)}
+    if op.HasField("error"):
+        d["error"] = {"code": op.error.code, "message": op.error.message}
+    return json.dumps(d)
 
 
 def run_case(case):
@@ -84,7 +102,7 @@ def run_case(case):
         if not info:
             continue
         rtype, mtype = resolve(pkg, info[0]), resolve(pkg, info[1])
-        for kind in ("grpc", "aio"):
+        for kind in (("grpc", "aio", "rest") if api.info.get("rest_lro") else ("grpc", "aio")):
             for k in rng.sample([0, 1, 2, 3], 2):
                 for outcome in ("response", "error"):
                     opname = "operations/op-%d" % rng.randint(1, 10 ** 6)
@@ -119,7 +137,11 @@ def run_case(case):
                         first_reply = last if rng.random() < 0.5 else first
                     else:
                         first_reply = first
-                    calls.append({**base, "kind": "lro", "client": kind, "request": rdm.b64(x.SerializeToString()),
+                    extra = {}
+                    if kind == "rest":
+                        extra = {"first_json": op_json(first_reply, mtype, rtype, model), "polls_json": [op_json(model.parse("google.longrunning.Operation", rdm.unb64(p_)), mtype, rtype, model) for p_ in polls] + [op_json(last, mtype, rtype, model)],
+                                 "poll_prefix": api.info["rest_lro"]["prefix"], "ops_in_apis": api.info["rest_lro"]["operations_listed_under_apis"]}
+                    calls.append({**base, **extra, "kind": "lro", "client": kind, "request": rdm.b64(x.SerializeToString()),
                                   "first": rdm.b64(first_reply.SerializeToString()),
                                   "polls": polls + [rdm.b64(last.SerializeToString())], "k": k, "outcome": outcome, "opname": opname,
                                   "rtype": rtype, "mtype": mtype, "expected_result": rdm.b64(res.SerializeToString()),
@@ -136,7 +158,7 @@ def run_case(case):
 
     sample = None
     for call, r in zip(calls, ev["results"]):
-        v = judge(model, call, r, ev["proxy_log"][call["client"]], bump)
+        v = judge(model, call, r, ev["proxy_log"].get(call["client"], []), bump)
         for x in v:
             x["mech"] = {"client": call["client"], "kind": call["kind"], "where": call.get("where"), "outcome": call.get("outcome")}
             x["detail"] = {"rpc": call["rpc"], "client": call["client"], "where": call.get("where"), "k": call.get("k"), "why": x["detail"]}
@@ -180,6 +202,19 @@ def judge(model, call, r, proxy_log, bump):
     polls = r["poll_events"]
     need = 0 if call["first_done"] else call["k"] + 1
     bump("polls_observed", len(polls))
+    if call["client"] == "rest":
+        bump("rest_lro_histories")
+        want_path = call["poll_prefix"] + "/" + call["opname"]
+        for e in polls:
+            if e["verb"] != "GET" or e["path"] != want_path:
+                bad("rest-poll-does-not-follow-the-yaml-rule", {"seen": f"{e['verb']} {e['path']}", "rule": f"GET {want_path}",
+                                                                 "operations_listed_under_apis": call["ops_in_apis"]})
+                return v
+        polls = []
+        need = 0 if call["first_done"] else call["k"] + 1
+        if len(r["poll_events"]) != need:
+            bad("poll-count", f"{len(r['poll_events'])} polls over REST for history not-done^{call['k']}; expected {need}")
+        need = 0
     for e in polls:
         if e["method"] != "/google.longrunning.Operations/GetOperation":
             bad("poll-path", e["method"])
@@ -269,6 +304,40 @@ def in_runner(script):
             o["call_error"] = rt.exc_info(e)
         o["poll_events"] = poll_events(mark)
         srv.script(GET, [])
+        results[i] = o
+
+    http = None
+    rclients = {}
+    for i, call in enumerate(script["calls"]):
+        if call["client"] != "rest":
+            continue
+        if http is None:
+            http = rt.HttpServer()
+        svc = call["service"]
+        if svc not in rclients:
+            rclients[svc] = lib.rest_client(svc, http.host)
+        http.script([{"status": 200, "body": call["first_json"]}] + [{"status": 200, "body": pj} for pj in call["polls_json"]])
+        mark = http.mark()
+        o = {}
+        try:
+            ret = getattr(rclients[svc], call["method"])(request=lib.mk(call["req_type"], rt.unb64(call["request"])))
+            o["is_future"] = hasattr(ret, "result") and hasattr(ret, "operation") and hasattr(ret, "metadata")
+            o["returned_type"] = type(ret).__module__ + "." + type(ret).__name__
+            if o["is_future"]:
+                try:
+                    res = ret.result(timeout=600)
+                    o["result_type"], o["result"] = rt.ser(res) if res is not None else (None, None)
+                except BaseException as e:  # noqa
+                    o["result_error"] = rt.exc_info(e)
+                try:
+                    md = ret.metadata
+                    o["metadata_type"], o["metadata"] = rt.ser(md)
+                except BaseException as e:  # noqa
+                    o["metadata_error"] = rt.exc_info(e)
+        except BaseException as e:  # noqa
+            o["call_error"] = rt.exc_info(e)
+        o["poll_events"] = http.since(mark)[1:]
+        http.script([])
         results[i] = o
 
     async def amain():
